@@ -15,8 +15,8 @@ Open Scope Z_scope.
 Inductive discharge :=
 | D_SortUnique      (* elements collected from a map, then sorted by a key that is unique among them
                        (the map key itself): sort_after_collect_deterministic                          *)
-| D_CommSum         (* every iteration adds a per-element vector into accumulators with exact integer
-                       (big.Int / LegacyDec) addition: tally_order_irrelevant                          *)
+| D_CommSum         (* every iteration adds a per-element contribution into accumulators with an exact, commutative
+                       and associative addition (big.Int / LegacyDec): accumulate_order_irrelevant             *)
 | D_ExactFloatSum   (* float64 accumulation of |integers| whose total stays below 2^53: every partial
                        sum is exact, so the order is irrelevant: power_diff_order_irrelevant.  Exactly two
                        float operations may sit inside the map loop (the conversion and the +=); a division
@@ -35,23 +35,23 @@ Inductive discharge :=
 | D_Telemetry.      (* a float constant handed to a telemetry counter; metrics are not state — by reading *)
 
 Definition allow : list (string * string * site_kind * Z * string * discharge) :=
- [ ("app/app.go", "App.AutoCliOpts", K_maprange, 1, "", D_MapRebuild);
-   ("app/app.go", "App.GetModules", K_maprange, 1, "", D_MapRebuild);
-   ("app/genesis.go", "NewDefAppGenesisByDenom", K_maprange, 1, "", D_MapRebuild);
-   ("app/modules.go", "GetMaccPerms", K_maprange, 1, "", D_MapRebuild);
-   ("app/modules.go", "ModuleAccountAddrs", K_maprange, 1, "", D_MapRebuild);
+ [ ("app/app.go", "App.AutoCliOpts", K_maprange, 1, "shape=write-keyed-by-element", D_MapRebuild);
+   ("app/app.go", "App.GetModules", K_maprange, 1, "shape=write-keyed-by-element", D_MapRebuild);
+   ("app/genesis.go", "NewDefAppGenesisByDenom", K_maprange, 1, "shape=write-keyed-by-element", D_MapRebuild);
+   ("app/modules.go", "GetMaccPerms", K_maprange, 1, "shape=write-keyed-by-element", D_MapRebuild);
+   ("app/modules.go", "ModuleAccountAddrs", K_maprange, 1, "shape=write-keyed-by-element", D_MapRebuild);
    ("x/crosschain/keeper/abci.go", "Keeper.isNeedOracleSetRequest", K_floatfmt, 1, "%.8f", D_PureFloat);
-   ("x/crosschain/keeper/batch_fee.go", "Keeper.GetAllBatchFees", K_maprange, 1, "", D_SortUnique);
-   ("x/crosschain/keeper/bridge_call_in.go", "Keeper.BridgeCallHandler", K_float, 1, "", D_Telemetry);
-   ("x/crosschain/keeper/bridge_call_out.go", "Keeper.AddOutgoingBridgeCallWithoutBuild", K_float, 1, "", D_Telemetry);
-   ("x/crosschain/keeper/msg_server.go", "MsgServer.AddDelegate", K_float, 1, "", D_Telemetry);
-   ("x/crosschain/keeper/oracle.go", "Keeper.SlashOracle", K_float, 1, "", D_Telemetry);
-   ("x/crosschain/keeper/send_to_fx.go", "Keeper.SendToFxExecuted", K_float, 1, "", D_Telemetry);
-   ("x/crosschain/types/external_address.go", "GetSupportChains", K_maprange, 1, "", D_SortUnique);
+   ("x/crosschain/keeper/batch_fee.go", "Keeper.GetAllBatchFees", K_maprange, 1, "shape=collect-then-sort", D_SortUnique);
+   ("x/crosschain/keeper/bridge_call_in.go", "Keeper.BridgeCallHandler", K_float, 1, "telemetry-arg", D_Telemetry);
+   ("x/crosschain/keeper/bridge_call_out.go", "Keeper.AddOutgoingBridgeCallWithoutBuild", K_float, 1, "telemetry-arg", D_Telemetry);
+   ("x/crosschain/keeper/msg_server.go", "MsgServer.AddDelegate", K_float, 1, "telemetry-arg", D_Telemetry);
+   ("x/crosschain/keeper/oracle.go", "Keeper.SlashOracle", K_float, 1, "telemetry-arg", D_Telemetry);
+   ("x/crosschain/keeper/send_to_fx.go", "Keeper.SendToFxExecuted", K_float, 1, "telemetry-arg", D_Telemetry);
+   ("x/crosschain/types/external_address.go", "GetSupportChains", K_maprange, 1, "shape=collect-then-sort", D_SortUnique);
    ("x/crosschain/types/types.go", "BridgeValidators.PowerDiff", K_float, 4, "inmaprange,inmaprange", D_ExactFloatSum);
-   ("x/crosschain/types/types.go", "BridgeValidators.PowerDiff", K_maprange, 1, "", D_ExactFloatSum);
-   ("x/gov/keeper/tally.go", "Keeper.Tally", K_maprange, 1, "", D_CommSum);
-   ("x/gov/types/msgs.go", "CustomParams.ValidateBasic", K_float, 1, "", D_PureFloat);
+   ("x/crosschain/types/types.go", "BridgeValidators.PowerDiff", K_maprange, 1, "shape=accumulate-float", D_ExactFloatSum);
+   ("x/gov/keeper/tally.go", "Keeper.Tally", K_maprange, 1, "shape=accumulate-exact", D_CommSum);
+   ("x/gov/types/msgs.go", "CustomParams.ValidateBasic", K_float, 1, "compare-const", D_PureFloat);
    (* process-level mutable state under x/: each entry lists ALL such fields / variables of the struct / file *)
    ("x/crosschain/keeper/keeper_router.go", "type router", K_state, 1, "routes:map[string]*keeper.ModuleHandler", D_WiringOnly);
    ("x/crosschain/precompile/keeper.go", "type Keeper", K_state, 1, "router:*precompile.Router", D_WiringOnly);
@@ -82,5 +82,21 @@ Fixpoint lookup_allow_in (tbl : list (string * string * site_kind * Z * string *
 
 Definition lookup_allow := lookup_allow_in allow.
 
+(* a discharge class applies only to a site whose SHAPE — read from the source by the translator — matches the
+   hypothesis of the class's lemma *)
+Definition discharge_fits (d : discharge) (s : site_row) : bool :=
+  match d, s_kind s with
+  | D_SortUnique, K_maprange => String.eqb (s_detail s) "shape=collect-then-sort"
+  | D_CommSum, K_maprange => String.eqb (s_detail s) "shape=accumulate-exact"
+  | D_ExactFloatSum, K_maprange => String.eqb (s_detail s) "shape=accumulate-float"
+  | D_ExactFloatSum, K_float => String.eqb (s_detail s) "inmaprange,inmaprange"   (* the conversion and the += , nothing else, inside the loop *)
+  | D_MapRebuild, K_maprange => String.eqb (s_detail s) "shape=write-keyed-by-element"
+  | D_PureFloat, K_floatfmt => String.eqb (s_detail s) "%.8f"
+  | D_PureFloat, K_float => String.eqb (s_detail s) "compare-const"
+  | D_Telemetry, K_float => String.eqb (s_detail s) "telemetry-arg"
+  | D_WiringOnly, K_state => true
+  | _, _ => false
+  end.
+
 Definition all_sites_allowed (sites : list site_row) : bool :=
-  forallb (fun s => match lookup_allow s with Some _ => true | None => false end) sites.
+  forallb (fun s => match lookup_allow s with Some d => discharge_fits d s | None => false end) sites.
